@@ -32,8 +32,10 @@ def setup():
 
 
 def log_meaning(tree):
-    lg = tree.read(".ninja_log")
-    dp = tree.read(".ninja_deps")
+    bd = (tree.sc or {}).get("builddir")
+    pre = bd + "/" if bd else ""
+    lg = tree.read(pre + ".ninja_log")
+    dp = tree.read(pre + ".ninja_deps")
     return (parse_build_log(lg)[1] if lg is not None else None, deps_view(parse_deps_log(dp)) if dp is not None else None)
 
 
@@ -46,6 +48,8 @@ def scenario(ctx, seed):
     g = gen.Gen(random.Random(rng.randint(0, 2 ** 60)), size=rng.randint(3, 8),
                 feat=dict(deps=0.5, rsp=0.2, multi=0.3, restat=0.25, phony=0.2, vals=0.2, generator=0.05, pools=0.2, dyndep=0.0))
     sc = g.scenario("C19-%d" % seed)
+    if rng.random() < 0.35:
+        sc["builddir"] = rng.choice(("bd", "out/logs"))       # the logs live in a directory of their own
     if rng.random() < 0.35:
         sc["regen_manifest"] = True
         sc["sources"]["build.ninja.in"] = "# what the manifest is generated from\n"
@@ -129,6 +133,11 @@ def scenario(ctx, seed):
                     ctx.violation("C19/command-executed/" + tool, "%s executed build commands: %s" % (what, sorted({e['id'] for e in ev})), rep)
                     return
                 after = t.snapshot()
+                if sc.get("builddir"):
+                    # the tools that open the logs make sure the directory for them exists: neither a source, an output nor a
+                    # depfile, and an empty directory means the same as none
+                    bd_dirs = {"/".join(sc["builddir"].split("/")[:k + 1]) + "/" for k in range(len(sc["builddir"].split("/")))}
+                    after = {k_: v_ for k_, v_ in after.items() if k_ not in bd_dirs or k_ in before}
                 if os.path.exists(t.path(".ninja_lock")) or ".ninja_lock" in after:
                     ctx.violation("C19/lock-file-left/" + tool, what, rep)
                     return
